@@ -300,3 +300,19 @@ def write_evidence(prop, tier, seed, level, agg, wall_s, rule, real, stubbed, as
         json.dump(ev, f, indent=1, sort_keys=True)
     os.replace(tmp, path)
     return path
+
+
+def reach_self_check(prop, agg, runs_done, runs_budget):
+    """returns the list of required probes that stayed at zero (empty = fine)"""
+    from .budgets import REQUIRED
+
+    if runs_done * 2 < runs_budget:
+        return []
+    missing = []
+    for name in REQUIRED.get(prop, []):
+        if name.startswith("#"):
+            if agg.counters.get(name[1:], 0) == 0:
+                missing.append(name)
+        elif agg.probes.get(name, 0) == 0:
+            missing.append(name)
+    return missing
